@@ -155,8 +155,10 @@ func (s *ExpressionListRewriter) Exit(node cypher.SyntaxNode) {
 				s.SetErrorf("expected a match AST node")
 			} else if ancestorExpressionList, isExpressionList := s.peekExpressionList(); !isExpressionList {
 				s.SetErrorf("expected an expression list AST node")
-			} else {
-				firstRelationshipPattern := lastMatch.FirstRelationshipPattern()
+			} else if firstRelationshipPattern := lastMatch.FirstRelationshipPattern(); len(firstRelationshipPattern.Kinds) == 0 {
+				// The kinds of a relationship pattern are alternatives. A second kind matcher that holds at the same
+				// time as one already moved into the pattern narrows the match; appending its kinds would widen it, so
+				// only the first one is moved and any other stays in the where clause
 				firstRelationshipPattern.Kinds = append(firstRelationshipPattern.Kinds, typedNode.Kinds...)
 
 				ancestorExpressionList.Remove(node)
